@@ -3,12 +3,45 @@
 CONF = dict(
     cmd='c11',
     props='Props/C11.v',
-    rule='TBD',
-    assumptions=[],
-    trusted=[],
-    technique='TBD',
-    level_text='TBD',
-    level_note='TBD',
-    explanation='TBD',
+    rule=('c11.hist: histories of 4..45 calls of the real core/client.IPClient (NTS enabled, real ntske.Fetcher) against the real NTS-KE server (TLS 1.3, run-time certificate) '
+          'and the real NTP listener (server.StartIPServer) sharing one real ntske.Provider, through a relay of the harness that delivers, loses the request, loses the reply, '
+          'flips one bit of the reply, replays an earlier reply, duplicates the request, lets the client run into its deadline, or makes a needed key exchange fail; shapes: '
+          'loss-free, k = 0..9 consecutive losses then recovery (every pool level 8..0), complete drain and re-keying (once or twice), random mixes, provider aged by '
+          '1/23/25/30/47/49 h between calls (key rotation while old cookies stay valid), aged by 73..200 h (keys of the pooled cookies expire: server silent, pool drains, '
+          're-key). Recorded per call: request and reply datagrams, whether the cookie opens under a valid key, the reply opened with miscreant, every reply cookie opened the '
+          'way the server opens cookies, pool and keys of the fetcher afterwards (verif hook), completed TLS handshakes. c11.srv: authenticated requests of any shape (1..3 '
+          'cookies, 0..40 placeholders of 0..128 bytes, identifiers of 32..164 bytes) built with the real encoder and sent to the real listener. c11.req / c11.resp: '
+          'nts.NewRequestPacket / NewResponsePacket + EncodePacket on crafted pools and cookie lists (pool level 0..14, cookie lengths 0..1100 dense around every length at '
+          'which one field more or less fits, identifier lengths 0..940, keys of wrong length), compared byte for byte. c11.store: Fetcher.StoreCookie around MaxCookieLen. '
+          'A history is non-trivial when it has a loss, a success and a refill below level 8 or a re-keying after a drain; a req/resp/srv case when it is at the issued '
+          'cookie length or needs more than one field; distinct = distinct (kind, input)'),
+    assumptions=['cookies of the length this project\'s servers issue (124 bytes) for the numeric clauses; general theorems for every cookie length of which at least one fits',
+                 'server nonces fresh: the map from issue number to cookie is injective',
+                 'AES-SIV: ciphertext = plaintext + 16 bytes; for C11_reply_authenticable open(seal(p)) = p (toy instance in Props/C11.v shows consistency)',
+                 'cookies the client keeps are at most MaxCookieLen = 896 bytes long (StoreCookie ignores longer ones)',
+                 'a call of the client is atomic with respect to its own fetcher (one goroutine per client, as in core/client)'],
+    trusted=['modelled, not verified: miscreant AES-SIV (Section variable; the harness recomputes every seal/open with miscreant and the runner checks that the model asks for '
+             'exactly that query), crypto/rand (unique identifier and nonces are inputs), crypto/tls and the NTS-KE record exchange (C20), the provider (C12)',
+             'the verif hook net/ntske/hooks_verif.go (add-only: Fetcher.VerifData reads the cached data, Provider.VerifAge moves the provider\'s times into the past)',
+             'the relay, the sentinel request that decides "no reply", and the re-opening of cookies with the project\'s own cookie decoder in the harness'],
+    technique=('Coq proof: an inductive invariant of (pool, cookies sent, cookies issued) preserved by every call for all histories of successes, losses, failed key exchanges '
+               'and foreign issues (no reuse, pool <= 8, never shrinks on success, 8 stays 8, loss-free = 8, two successes restore 8); arithmetic over Go\'s truncating division '
+               'for maxCookies (fits, and maximal); the encoders modelled on the fixed 1024-byte buffer (silent truncation of copy, panic of PutUint16) and proved to produce '
+               'the exact wire layout without panic. Correspondence: the extracted encoders/decoders/pool functions are compared byte for byte with the real datagrams and '
+               'with the pool of the real fetcher after every call; the property oracle (own RFC 8915 field parser) is evaluated on every observation'),
+    level_text=('Theorems hold for every finite history (any pattern of losses down to an empty pool, failed and successful re-keying, cookies issued to other clients in '
+                'between), every pool level, and - for the fit clauses - every cookie and identifier length of which one cookie fits, with the numbers for 124-byte cookies '
+                'spelled out; key rotation and expiry of the real provider are exercised by the correspondence run, where the oracle checks on the real code that every reply '
+                'cookie opens under a currently valid key to the session keys'),
+    level_note=('Partial: the clause "each reply cookie opens under a currently valid server key to the same session keys" and the client\'s decoding of the reply are not '
+                'theorems here (cookie sealing/opening is C10/C14, key validity C12); they are enforced by the oracle on the implementation\'s observations, and the model of '
+                'DecodePacket/authenticate is compared with the real pool after every call. The oracle is not proved about the byte-level model as one statement; each of its '
+                'clauses is a theorem at the level of lengths, field lists and histories. The SCION listener (server_scion.go) has the same replenishment code but is not '
+                'driven by this harness. No axioms.'),
+    explanation=('oracle clauses: request <= 1024 bytes, tiles into extension fields, exactly one unique identifier, one cookie field, authenticator last, everything else typed '
+                 '0x0304 and as long as the cookie, one placeholder per missing cookie unless one more would not fit; cookie never sent before, taken from the pool, gone from the '
+                 'pool afterwards; pool <= 8, not smaller after an authenticated reply; key exchange only when the pool is empty; server answers every request whose cookie opens; '
+                 'reply <= 1024, well formed, authenticates under S2C, one new cookie per requested field (fewer only if one more would not fit), each new, each opening under a valid key to the session keys; '
+                 'a process that dies during a history is a failure'),
     timeout_quick=900, timeout_thorough=3000,
 )
